@@ -62,9 +62,18 @@ type SymBytes struct {
 
 // SymBuf is the shared mutable backing store. Exactly one of Str / Arr is set.
 type SymBuf struct {
-	Str   *smt.Term // whole-buffer content as an SMT string (immutable content)
-	Arr   *smt.Term // whole-buffer content as Array BV64 -> BV8
-	Ghost map[string]interface{}
+	Str    *smt.Term // whole-buffer content as an SMT string (immutable content)
+	Arr    *smt.Term // whole-buffer content as Array BV64 -> BV8
+	Base   *smt.Term // array index 0 corresponds to buffer position Base (nil = 0)
+	Origin *smt.Term // the content term the buffer was created from (identity for models)
+	Ghost  map[string]interface{}
+}
+
+func derefType(t types.Type) types.Type {
+	if p, ok := t.Underlying().(*types.Pointer); ok {
+		return p.Elem()
+	}
+	return t
 }
 
 type Iface struct {
